@@ -362,6 +362,21 @@ def correspond(ctx):
         ("no-content-types", lambda p: p.update(has_ct=False), "KeyError"),
         ("no-package-rels", lambda p: p["rels"].pop("/"), "KeyError"),
         ("wrong-main-type", lambda p: p.update(overrides=[(n, ("application/vnd.openxmlformats-officedocument.wordprocessingml.document.main+xml" if n.endswith("presentation.xml") else c)) for n, c in p["overrides"]]), "ValueError"),
+    ] + [
+        # every other main-part type a presentation-like file can carry (a template, a slide show and their macro-enabled
+        # forms are not presentations; the macro-enabled PRESENTATION is one and must open)
+        ("main-type:" + ct.split("/")[-1][-44:],
+         (lambda ct: lambda p: p.update(overrides=[(n, (ct if n.endswith("presentation.xml") else c)) for n, c in p["overrides"]]))(ct), want_)
+        for ct, want_ in [
+            ("application/vnd.openxmlformats-officedocument.presentationml.template.main+xml", "ValueError"),
+            ("application/vnd.openxmlformats-officedocument.presentationml.slideshow.main+xml", "ValueError"),
+            ("application/vnd.ms-powerpoint.template.macroEnabled.main+xml", "ValueError"),
+            ("application/vnd.ms-powerpoint.slideshow.macroEnabled.main+xml", "ValueError"),
+            ("application/vnd.openxmlformats-officedocument.presentationml.slide+xml", "ValueError"),
+            ("application/vnd.openxmlformats-officedocument.spreadsheetml.sheet.main+xml", "ValueError"),
+            ("application/xml", "ValueError"),
+            ("application/vnd.ms-powerpoint.presentation.macroEnabled.main+xml", None),
+        ]
     ]:
         pkg = {k: (dict(v) if isinstance(v, dict) else list(v) if isinstance(v, list) else v) for k, v in base_pkg.items()}
         pkg["rels"] = {s: list(l) for s, l in base_pkg["rels"].items()}
